@@ -128,7 +128,7 @@ def oracle(lines, params):
 
 def is_float_case(rq):
     env = rq.get("env") or {}
-    if any(isinstance(v, float) for v in (env.values() if isinstance(env, dict) else [])):
+    if any(isinstance(v, (float, tuple, list)) for v in (env.values() if isinstance(env, dict) else [])):
         return True
     text = "".join(rq.get("lines") or [])
     return bool(re.search(r"<[^<>]*(\d\.\d|(?<!/)/(?!/))[^<>]*>", text)) or bool(re.search(r"length[^\n]*(\d\.\d|(?<!/)/(?!/))", text))
@@ -260,8 +260,21 @@ def gen_case(rng):
         # decimal is, e.g. in [<tol>nt] or [k > <rate> /M/s]); the model's integer evaluator answers `unsupported` for these
         for p in rng.sample(PARAMS, rng.randint(1, 2)):
             params[p] = rng.choice([1.5, 0.25, 2500.75, 2.0, 0.04, 12.75, -0.5])
-    names = list(params)
+    tup = None
+    if rng.random() < 0.1:
+        # a tuple-valued argument, used through subscripts `<toes[0]>` (any Python expression may stand between < and >); the model's
+        # integer evaluator answers `unsupported` for these, the oracle evaluates them with Python
+        tup = rng.choice(["toes", "lens", "pair"])
+        params[tup] = tuple(rng.randint(1, 9) for _ in range(rng.randint(2, 3)))
+    names = [k_ for k_ in params if k_ != tup]
     lines, kinds = [], []
+    if tup is not None:
+        k_ = rng.randrange(len(params[tup]))
+        lines.append(rng.choice(['sequence s%d = "<%s[%d]>N" : <%s[%d]>' % (k_, tup, k_, tup, k_),
+                                 'strand Z = a "<%s[%d] + %s[0]>S"' % (tup, k_, tup),
+                                 'structure [<%s[-1]>nt] Q = Z : <%s[%d]>.' % (tup, tup, k_),
+                                 'length w_%s = %s[%d] * 2' % (tup, tup, k_)]) + "\n")
+        kinds.append("subscript")
     for _ in range(rng.randint(1, 12)):
         if rng.random() < 0.18:
             v = rng.choice(LENGTHS + names[:1]) if rng.random() < 0.9 else rng.choice(PARAMS)
